@@ -27,6 +27,7 @@ try:
     import hephaestus as H
 finally:
     sys.argv = _saved_argv
+_REAL_COMPILERS = dict(H.COMPILERS)          # the harnesses below put stand-ins into H.COMPILERS
 
 
 def _proc_root():
@@ -468,6 +469,201 @@ def h_pool(eng, nbatches, B):
     return obs
 
 
+# ------------------------------------------------------------------ sequential session through the real gen_program
+FAIL_AT = ['none', 'generate', 'transform', 'inject', 'translate-correct', 'translate-incorrect']
+
+
+class StubProgram:
+    """what the stand-in processor hands around instead of an IR program (picklable: save_program dumps it)"""
+
+    def __init__(self, pid, incorrect=False):
+        self.pid, self.incorrect = pid, incorrect
+
+
+class _Named:
+    def __init__(self, name):
+        self.name = name
+
+    def get_name(self):
+        return self.name
+
+
+def h_session(eng, K, max_batch):
+    """A whole sequential session (--iterations K --batch B) through the real run(): _run, gen_program,
+    process_cp_transformations, process_ncp_transformations, save_program, check_oracle, update_stats, save_stats.
+    The tool's own steps are a stand-in ProgramProcessor / translate_program that fail at a symbolic point per program
+    (generation, a transformation, the fault injection, a translation) with a message naming the program; the compiler
+    stand-in answers as expected (well-typed accepted, ill-typed rejected), so exactly the programs the tool failed on
+    are faults, each with its own message."""
+    root = _proc_root()
+    sess = os.path.join(root, 'bugs', 'sess')
+    shutil.rmtree(os.path.join(root, 'bugs'), ignore_errors=True)
+    os.makedirs(sess)
+    B = int(eng.fresh_int(1, max_batch, 'batch'))
+    plan = {}
+    for pid in range(1, K + 1):
+        plan[pid] = dict(fail=FAIL_AT[int(eng.fresh_int(0, len(FAIL_AT) - 1, 'fails_at'))],
+                         injects=bool(eng.fresh_bool('injects_a_fault')), ntrans=int(eng.fresh_int(0, 1, 'transformations')))
+
+    def message(pid):
+        return 'tool failure at %s of program %d' % (plan[pid]['fail'], pid)
+
+    class StubProc:
+        def __init__(self, pid, args):
+            self.pid, self.n, self.current_transformation = pid, 0, 0
+
+        def get_program(self):
+            if plan[self.pid]['fail'] == 'generate':
+                raise RuntimeError(message(self.pid))
+            return StubProgram(self.pid), True
+
+        def can_transform(self):
+            return self.n < plan[self.pid]['ntrans']
+
+        def transform_program(self, program):
+            self.n += 1
+            self.current_transformation += 1
+            if plan[self.pid]['fail'] == 'transform':
+                raise RuntimeError(message(self.pid))
+            return program, True
+
+        def inject_fault(self, program):
+            if plan[self.pid]['fail'] == 'inject':
+                raise RuntimeError(message(self.pid))
+            if not plan[self.pid]['injects']:
+                return None
+            return StubProgram(self.pid, incorrect=True), 'INJ%d' % self.pid
+
+        def get_transformations(self):
+            return [_Named('T%d' % i) for i in range(self.n)]
+
+    def translate_program(translator, program):
+        f = plan[program.pid]['fail']
+        if (f == 'translate-correct' and not program.incorrect) or (f == 'translate-incorrect' and program.incorrect):
+            raise RuntimeError(message(program.pid))
+        return 'package %s; // program %d %s' % (translator.package, program.pid, 'INCORRECT' if program.incorrect else 'correct')
+
+    # the real JavaCompiler parses an output synthesised from the staged files: one javac error unit per ill-typed file,
+    # followed by an internal stack trace when the compiler "crashes" on the first batch (symbolic)
+    crash_first = bool(eng.fresh_bool('compiler_crashes_on_the_first_batch'))
+    RealJava = _REAL_COMPILERS['java']
+    ncalls = []
+
+    class SessionCompiler(RealJava):
+        def get_compiler_cmd(self):
+            return ['javac-stand-in', self.input_name]
+
+        @classmethod
+        def get_compiler_version(cls):
+            return ['true']
+
+    def run_command(args, get_stdout=True):
+        if len(args) < 2 or args[0] != 'javac-stand-in':
+            return True, ''
+        ncalls.append(1)
+        out = []
+        for d, _, files in sorted(os.walk(args[1].split('*')[0])):      # (JavaCompiler appends the glob */*.java)
+            for fn in sorted(files):
+                if fn.endswith('.java'):
+                    with open(os.path.join(d, fn)) as fh:
+                        if 'INCORRECT' in fh.read():
+                            out.append('%s:3: error: incompatible types: String cannot be converted to Integer\n'
+                                       '    Integer x = "s";\n                ^\n' % os.path.join(d, fn))
+        if out:
+            out.append('%d error%s\n' % (len(out), '' if len(out) == 1 else 's'))
+        if crash_first and len(ncalls) == 1:
+            out.append('An exception has occurred in the compiler (17.0.1). Please file a bug.\n'
+                       'java.lang.AssertionError: isSubtype UNKNOWN\n\tat jdk.compiler/com.sun.tools.javac.code.Types.isSubtype(Types.java:1101)\n')
+        return False, ''.join(out)
+
+    saved = dict(proc=H.ProgramProcessor, tp=H.utils.translate_program, comp=H.COMPILERS['java'], rc=H.run_command,
+                 pm=H.print_msg, lg=H.logging, stats=H.STATS)
+    ca = H.cli_args
+    saved_args = {k: getattr(ca, k) for k in ('test_directory', 'iterations', 'batch', 'seconds', 'stop_cond', 'debug', 'rerun',
+                                              'keep_all', 'dry_run', 'examine', 'print_stacktrace',
+                                              'only_correctness_preserving_transformations', 'log_file')
+                  if hasattr(ca, k)}
+    H.ProgramProcessor, H.utils.translate_program = StubProc, translate_program
+    H.COMPILERS['java'] = SessionCompiler
+    H.run_command = run_command
+    H.print_msg = lambda: None
+    H.logging = lambda: None
+    H.STATS = {'Info': {}, 'totals': {'passed': 0, 'failed': 0}, 'time': 0, 'compilation_time': 0, 'faults': {}}
+    H.STOP_COND = False
+    ca.test_directory, ca.iterations, ca.batch, ca.seconds, ca.stop_cond = sess, K, B, None, 'iterations'
+    ca.debug = ca.rerun = ca.keep_all = ca.dry_run = ca.examine = ca.print_stacktrace = False
+    ca.only_correctness_preserving_transformations = False
+    import builtins
+    orig_print = builtins.print
+    builtins.print = lambda *a, **k: None
+    exc = None
+    try:
+        H.run()
+    except Exception as e:      # noqa
+        exc = e
+    finally:
+        builtins.print = orig_print
+        stats = H.STATS
+        H.ProgramProcessor, H.utils.translate_program, H.COMPILERS['java'] = saved['proc'], saved['tp'], saved['comp']
+        H.run_command, H.print_msg, H.logging, H.STATS = saved['rc'], saved['pm'], saved['lg'], saved['stats']
+        for k, v in saved_args.items():
+            setattr(ca, k, v)
+
+    def failed_by_plan(pid):
+        f = plan[pid]['fail']
+        if f == 'none':
+            return False
+        if f == 'transform':
+            return plan[pid]['ntrans'] > 0
+        if f == 'translate-incorrect':
+            return plan[pid]['injects']
+        return True
+    crashed = set(range(1, min(B, K) + 1)) if crash_first else set()
+    case = dict(iterations=K, batch=B, compiler_crashes_on_the_first_batch=crash_first,
+                plan={p_: dict(d) for p_, d in plan.items()}, exception=repr(exc) if exc else None,
+                faults={k: (v.get('error') if isinstance(v, dict) else v) for k, v in stats.get('faults', {}).items()},
+                totals=stats.get('totals'))
+    eng.event('session')
+    if exc is not None:
+        return [Ob('session|no-exception|%s' % type(exc).__name__, False, case)]
+    obs = []
+    faults = stats['faults']
+    tool = {pid for pid in plan if failed_by_plan(pid)}
+    want = tool | crashed
+    if tool:
+        eng.event('session-with-tool-failure')
+    if len(tool) >= 2:
+        eng.event('session-with-two-tool-failures')
+    if crashed:
+        eng.event('session-with-compiler-crash')
+    for pid in plan:
+        shape = 'fails_at=%s,injects=%d,crash=%d' % (plan[pid]['fail'], plan[pid]['injects'], pid in crashed)
+        obs.append(Ob('session|reported-iff-the-tool-failed-or-the-compiler-crashed|%s' % shape, (pid in faults) == (pid in want),
+                      dict(case, pid=pid)))
+        if pid in faults and pid in tool:
+            obs.append(Ob('session|fault-carries-its-own-message|%s' % shape, faults[pid].get('error') == message(pid),
+                          dict(case, pid=pid, expected=message(pid))))
+        elif pid in faults and pid in crashed:
+            obs.append(Ob('session|crash-fault-carries-the-stack-trace|%s' % shape,
+                          'java.lang.AssertionError' in (faults[pid].get('error') or ''), dict(case, pid=pid)))
+        obs.append(Ob('session|test-case-saved-iff-compiler-related|%s' % shape,
+                      os.path.isdir(os.path.join(sess, str(pid))) == (pid in crashed and pid not in tool), dict(case, pid=pid)))
+    obs.append(Ob('session|totals', stats['totals']['failed'] == len(want) and
+                  stats['totals']['passed'] + stats['totals']['failed'] == K, case))
+    try:
+        with open(os.path.join(sess, 'faults.json')) as f:
+            ff = json.load(f)
+        obs.append(Ob('session|faults-file-lists-the-reported-programs', set(ff) == {str(p_) for p_ in want} and
+                      all(ff[str(p_)].get('error') == message(p_) for p_ in tool), dict(case, faults_file={k: v.get('error') for k, v in ff.items()})))
+    except Exception as e:      # noqa
+        obs.append(Ob('session|faults-file-readable', False, dict(case, exception=repr(e))))
+    left = [x for x in os.listdir(sess) if x not in ('faults.json', 'stats.json') and not (x.isdigit() and int(x) in crashed - tool)]
+    obs.append(Ob('session|no-files-left-behind', not left, dict(case, left=left)))
+    eng.notes['sample'] = case
+    eng.notes['observe'] = sorted(faults)
+    return obs
+
+
 def h_counters(eng):
     """update_stats for arbitrary integer totals and batch size (one inductive step)."""
     p0 = eng.fresh_int_unbounded('passed', lo=0)
@@ -613,6 +809,18 @@ def jobs(tier):
                    bounds='the real run_parallel session of %d batches x %d programs: every flag combination per program, '
                           'crash bit per batch, every completion order of the checks the stand-in pool admits' % (nb, bb),
                    outside=OUT))
+    ks, mb2 = (2, 2) if tier == 'quick' else (3, 2)
+    out.append(Job('sequential-session-K%d' % ks, h_session, dict(K=ks, max_batch=mb2), split_depth=4,
+                   functions=[H.run, H._run, H.gen_program, H.process_cp_transformations, H.process_ncp_transformations,
+                              H.save_program, H.check_oracle, H.update_stats, H.save_stats],
+                   require_events=['session', 'session-with-tool-failure', 'session-with-two-tool-failures', 'session-with-compiler-crash'],
+                   stubs=['ProgramProcessor -> stand-in whose steps fail at a symbolic point per program (generation, a '
+                          'transformation, the fault injection, translation of the well-typed / ill-typed variant) with a message '
+                          'naming the program', 'utils.translate_program -> one line of text', 'the real JavaCompiler.analyze_compiler_output on a javac output '
+                          'synthesised from the staged files (one error unit per ill-typed file; an internal stack trace after them when the compiler crashes on the first batch)', 'logging, print_msg -> no-ops'],
+                   budget_s=1500, crosscheck_every=20,
+                   bounds='the real run() session of %d programs, --batch 1..%d; per program: failure point (6 values), fault '
+                          'injected or not, 0..1 transformations, compiler crash on the first batch -- every combination' % (ks, mb2), outside=OUT))
     out.append(Job('counters-step', h_counters, {}, serial=True, functions=[H.update_stats],
                    require_events=['counters'], stubs=STUBS,
                    bounds='arbitrary integers passed>=0, failed>=0, batch>=reported; 0..3 reported programs; one '
